@@ -458,10 +458,53 @@ pub fn generate(run_seed: u64, ctx: &Ctx, sw: &Swarm, i: u64, exhaustive: u64) -
 
 // ------------------------------------------------------------------------------------------
 
-/// The rest of an error-free stream consumed by value through `count()` or `for_each`: exactly
-/// the events `next` has not returned yet (an event that `peek` cached counts once).
+/// The rest of an error-free stream consumed through one of the `Iterator` trait's provided
+/// methods: `count()` / `for_each` by value deliver exactly the events `next` has not returned yet
+/// (an event that `peek` cached counts once); `nth` positioned on the last event returns
+/// `StreamEnd`, `nth` positioned at or beyond the end returns nothing, and in both cases the
+/// stream has ended afterwards: `next` and `peek` return nothing.
 fn finish_by_internal_iteration<I: Input>(p: Parser<'_, I>, expected: usize, op: usize, slot: usize) -> Option<(String, String)> {
-    clock::tick_op(55, slot as u64 % 2);
+    let mode = slot % 4;
+    clock::tick_op(55, mode as u64);
+    if mode >= 2 && expected >= 1 {
+        let mut p = p;
+        let over = (slot / 4) % 3;
+        let (n, want_end) = if mode == 2 { (expected + over, false) } else { (expected - 1, true) };
+        let got = p.nth(n);
+        let ok = match (&got, want_end) {
+            (None, false) => true,
+            (Some(Ok((Event::StreamEnd, _))), true) => true,
+            _ => false,
+        };
+        if !ok {
+            let desc = match &got {
+                None => "None".to_string(),
+                Some(Ok((ev, span))) => describe_event(&own(ev.clone()), span),
+                Some(Err(e)) => err_desc(e),
+            };
+            return Some((
+                "MODEL(internal-iteration)".to_string(),
+                format!(
+                    "after op {op}: nth({n}) with {expected} events left returned {desc}, the model expects {}",
+                    if want_end { "StreamEnd" } else { "None" }
+                ),
+            ));
+        }
+        for (q, c) in TAILS[(slot / 12) % 7].iter().enumerate() {
+            clock::probe(Probe::CallsAfterEnd);
+            let some = if *c == 0 { p.peek().is_some() } else { p.next().is_some() };
+            if some {
+                return Some((
+                    "MODEL(after-end)".to_string(),
+                    format!(
+                        "call {q} ({}) after nth({n}) passed the end of the stream ({expected} events were left) gave Some, model expects None",
+                        if *c == 0 { "peek" } else { "next" }
+                    ),
+                ));
+            }
+        }
+        return None;
+    }
     let (how, got) = if slot % 2 == 0 {
         ("count()", p.count())
     } else {
